@@ -25,6 +25,10 @@ def run():
         if os.path.exists(p):
             common.sh([p], timeout=1200, check=True)
     common.cargo_build("harness", "default")
+    if os.path.exists(os.path.join(common.ROOT, "checks", "cyclecheck.py")):
+        sys.path.insert(0, common.ROOT)
+        from checks import cyclecheck
+        cyclecheck.build_ocaml_cycle()
     # other engines (each guarded: a missing piece must not break the engines that exist)
     root = common.ROOT
     if os.path.exists(os.path.join(root, "harness-intern")):
@@ -37,6 +41,22 @@ def run():
                   cwd=os.path.join(root, "harness-proto"), timeout=2400, check=True,
                   env={"CARGO_TARGET_DIR": os.path.join(common.BUILD, "target-std"),
                        "RUSTFLAGS": f"--cfg {common.GUARD}"})
+    if os.path.exists(os.path.join(root, "vplib", "structsengine.py")):
+        from vplib import structsengine
+        structsengine.build_driver()
+        common.cargo_build("harness", "default", bins=["structs_harness"])
+    if os.path.exists(os.path.join(root, "vplib", "accengine.py")):
+        from vplib import accengine
+        accengine.build_ocaml_acc()
+        common.cargo_build("harness", "default", bins=[accengine.HARNESS_BIN])
+    if os.path.exists(os.path.join(root, "harness-persist")):
+        from vplib import persistengine
+        persistengine.build_ocaml_persist()
+        common.cargo_build("harness-persist", "persist")
+    if os.path.exists(os.path.join(root, "harness-life")):
+        sys.path.insert(0, root)
+        from checks import life_diff
+        life_diff.build(jobs=12)
     if os.path.exists(os.path.join(root, "harness-conc")):
         sys.path.insert(0, root)
         from checks import conc_diff
